@@ -263,7 +263,10 @@ out = eqx.combine(jax.tree.map(lambda o, t: self.tau * o + (1 - self.tau) * t, o
         auto = any(v for t, v in p.conds if t == ("attr", self_, "autotune"))
         seen.add(auto)
         tag = f"[autotune={auto}]"
-        ret = p.ret[1]
+        from .util import tuple_elems
+        ret = tuple_elems(b, p.ret)
+        if ret is None or len(ret) != 8:
+            raise AnalysisError(f"{con7}: expected an 8-tuple return")
         names = ["policy", "opt_state", "qf1", "qf2", "q_opt_state", "log_alpha", "alpha_opt_state", "log"]
         out = dict(zip(names, ret))
 
